@@ -8,6 +8,19 @@ from ..exceptions import SecurityError
 from ..urls import uri_to_iri
 
 
+def _strip_port(host: str) -> str:
+    if host.startswith("["):
+        # An IPv6 literal contains colons, the port comes after the bracket.
+        name, sep, rest = host.partition("]")
+
+        if sep and (not rest or rest.startswith(":")):
+            return f"{name}]"
+
+        return host
+
+    return host.partition(":")[0]
+
+
 def host_is_trusted(hostname: str | None, trusted_list: t.Iterable[str]) -> bool:
     """Check if a host matches a list of trusted names.
 
@@ -21,7 +34,7 @@ def host_is_trusted(hostname: str | None, trusted_list: t.Iterable[str]) -> bool
         return False
 
     try:
-        hostname = hostname.partition(":")[0].encode("idna").decode("ascii")
+        hostname = _strip_port(hostname).encode("idna").decode("ascii")
     except UnicodeError:
         return False
 
@@ -36,7 +49,7 @@ def host_is_trusted(hostname: str | None, trusted_list: t.Iterable[str]) -> bool
             suffix_match = False
 
         try:
-            ref = ref.partition(":")[0].encode("idna").decode("ascii")
+            ref = _strip_port(ref).encode("idna").decode("ascii")
         except UnicodeError:
             return False
 
